@@ -59,7 +59,7 @@ def setup(E, body):
 
 
 def reachable_values(E, st, vals):
-    """all values reachable from vals through refs into heap cells"""
+    """all values reachable from vals (through refs into heap cells as well)"""
     out = []
     seen = set()
     work = list(vals)
@@ -83,30 +83,46 @@ def reachable_values(E, st, vals):
     return out
 
 
-def exit_checks(E, st, kind, retval, param_vals):
+def check_dropall(E, st, mid, prim):
+    """after Drop::drop of a container: exactly its live elements were destroyed"""
+    m2 = st.maps[mid]
+    z = st.zone
+    lo, hi = m2.hole_rng
+    allgone = (z.entails_eq(lo, 0) and z.entails_eq(hi, m2.len) and not m2.holes) or z.entails_eq(m2.len, 0)
+    noextra = not m2.extras and slots.empty(z, m2.extra_rng)
+    E.oblig('DROPALL', allgone and noextra, prim,
+            'Drop for the container does not destroy exactly its live elements: %s' % m2.describe(),
+            'unproven', sample=m2.describe())
+
+
+def exit_checks(E, st, kind, retval, is_drop_root=False):
     """INV at a normal return, SINV after unwinding out of the root"""
     unw = kind == 'unwind'
     prim = 'unwind-exit' if unw else 'return'
-    survivors = reachable_values(E, st, list(param_vals) + ([retval] if retval is not None and not unw else []))
+    caller_mem = [st.objs[o] for o in sorted(st.keep) if o in st.objs]
+    ret_vals = reachable_values(E, st, [retval]) if (retval is not None and not unw) else []
+    survivors = reachable_values(E, st, caller_mem) + ret_vals
     its = [v for v in survivors if v[0] == 'sliceit']
-    live_maps = set()
-    for v in survivors:
-        if v[0] == 'map':
-            live_maps.add(v[1])
-        if v[0] == 'sliceit':
-            live_maps.add(v[1])
+    ret_maps = {v[1] for v in ret_vals if v[0] == 'map'}
     for mid, ms in st.maps.items():
         if ms.dead:
             continue
         rule = 'ESC' if unw else 'INV'
+        if is_drop_root and ms.borrowed and not ms.phantom:
+            # the receiver of Drop::drop is deallocated next: nothing observes it any more
+            if not unw:
+                check_dropall(E, st, mid, 'Drop::drop')
+            continue
+        if not (ms.borrowed or mid in ret_maps):
+            if unw:
+                continue   # an owned local container that cleanup did not drop: leaked (tolerated)
+            leaked = not st.zone.entails_eq(ms.len, 0) or ms.extras or not slots.empty(st.zone, ms.extra_rng)
+            E.oblig('INV', not leaked, prim,
+                    'LEAK: container %s is neither returned, dropped nor reachable [%s]' % (mid, ms.describe()),
+                    'refuted', sample='%s dropped or empty' % mid)
+            continue
         hr = [(v[2], v[3]) for v in its if v[1] == mid and v[4]]
         probs = slots.inv_problems(st, mid, allow_extras=unw, handle_ranges=hr)
-        if mid not in live_maps and not ms.phantom:
-            # a container that nobody can reach any more and that was not dropped: leaked whole
-            if not unw and not st.zone.entails_eq(ms.len, 0):
-                probs.append(('LEAK', 'container %s (len=%s) is neither returned, dropped nor reachable' % (mid, ms.len)))
-        if ms.exempt:
-            probs = []
         E.oblig(rule, not probs, prim,
                 '; '.join('%s: %s' % p for p in probs) + ' [%s]' % ms.describe(),
                 'refuted', sample='%s %s' % (mid, ms.describe()))
@@ -119,8 +135,14 @@ def exit_checks(E, st, kind, retval, param_vals):
         z = st.zone
         if z.entails_le(bk, fr):
             continue
+        if is_drop_root and ms.owned_extras and not unw:
+            E.oblig('HANDLE-DROP', slots.empty(z, ms.extra_rng), 'Drop::drop',
+                    'the owning handle is destroyed while it still owns live elements [%s,%s): %s'
+                    % (fr, bk, ms.describe()), 'unproven', sample=ms.describe())
+            continue
         covered = z.entails_le(bk, ms.len) and z.entails_le(0, fr)
-        owned = (not slots.empty(z, ms.extra_rng)) and z.entails_le(ms.extra_rng[0], fr) and z.entails_le(bk, ms.extra_rng[1])
+        owned = (not slots.empty(z, ms.extra_rng)) and z.entails_le(ms.extra_rng[0], fr) \
+            and z.entails_le(bk, ms.extra_rng[1])
         E.oblig('HANDLE', covered or owned, prim,
                 'iterator over slots [%s,%s) of %s which are not all live (%s)' % (fr, bk, mid, ms.describe()),
                 'unproven', sample='[%s,%s) within %s' % (fr, bk, ms.describe()))
@@ -131,10 +153,10 @@ def exit_checks(E, st, kind, retval, param_vals):
             if si is None:
                 continue
             idx, r = v[3][si[0]], v[3][si[1]]
+            if idx[0] == 'moved' or r[0] == 'moved':
+                continue
             mid = E.map_of_ref(st, r) if r[0] == 'ref' else None
             if mid is None or idx[0] != 'int':
-                if idx[0] == 'moved' or r[0] == 'moved':
-                    continue
                 E.oblig('STRUCTINV', False, prim, 'cannot resolve the container behind %s' % v[1], 'unproven')
                 continue
             ok = st.zone.entails_lt(idx[1], st.maps[mid].len)
@@ -155,12 +177,17 @@ def run_root(E, body, contract=None):
         if contract == 'full-hit-only':
             pass
         # keep the parameter values alive for the exit checks: frame 0 holds them
+        is_drop = bool(body.impl and body.impl.get('trait') == 'core::ops::drop::Drop')
+        if is_drop:
+            for ms in st.maps.values():
+                if ms.borrowed and not ms.phantom:
+                    ms.exempt = True
         res = E.exec_fn(st, body, list(args), gs)
         for kind, s, v in res:
             E.chain = [body.id]
             E.cur_span = body.span
             try:
-                exit_checks(E, s, kind, v, args)
+                exit_checks(E, s, kind, v, is_drop)
             except Unproven as e:
                 E.violate('SHAPE', 'unproven', 'exit', str(e))
             rr.outcomes.append((kind, s, v))
